@@ -20,6 +20,8 @@ LEVEL_TEXT = ('Decides necessary structural conditions of C01, for every path/cl
               'table (closures one element, groups/optionals spliced, rule value one element); choice options are '
               'tried in source order; repetition checks progress. Does NOT decide acceptance/AST for concrete '
               'grammar x input pairs (functional correctness of the interpreter).')
+TECHNIQUE += '; interpretation of defines_single/defines_list of every expression class on stand-in nodes with a named element in every operand (declared keys cover every operand)'
+LEVEL_TEXT += ' Added clause: every name bound in any operand of an expression (incl. join separators) is a declared key of the rule, so that it is None / [] when it did not match.'
 LEVEL_NOTE = ('Trusted: contextlib.contextmanager throws the body exception at the yield; unresolved calls may raise '
               'anything; the documented CST table (DESIGN appendix A) is the oracle, written from docs/ast.rst and '
               'docs/syntax.rst.')
@@ -849,4 +851,81 @@ def r5_state_stack(a, tier):
     return rep
 
 
-RULES = [r_chain, r1_frames, r1b_semantic_failures, r1c_control_containment, r2_cst, r3_ordered_choice, r4_progress, r5_state_stack]
+def r6_defines_cover_operands(a, tier):
+    from ..classes import dataclass_fields
+    from ..minieval import Unsupported
+    from ..modelinterp import ModelInterp, Stub
+    from ..rules.leftrec import Q
+    rep = RuleReport(
+        'C01.R6',
+        'names that did not match are None / []: the key lists a rule declares before parsing (defines_single / defines_list, '
+        'interpreted on stand-in nodes) contain the names bound in EVERY operand of every expression class - a name bound in an '
+        'operand the recursion does not visit (the separator of a join) appears in the AST only when that operand happened to '
+        'match, instead of being None / [] otherwise (docs/ast.rst)',
+        floor=40,
+    )
+    model = 'tatsu.peg.base.Model'
+    skip = {'Grammar', 'RuleInclude', 'Option'}
+    for c in sorted(a.ct.subclasses(model)):
+        short = c.split('.')[-1]
+        if c not in a.p.classes or short in skip:
+            continue
+        fields = [f for f in dataclass_fields(a.ct, c) if not f.name.startswith('_') and f.annotation
+                  and any(t in f.annotation for t in ('Model', 'Option')) and 'ref' not in f.annotation]
+        if not fields:
+            continue
+        # an operand that __post_init__ derives from other operands (BasedRule.rhs) is given the value __post_init__ would give it
+        for kind, prop, ncls in (('single', 'defines_single', 'Named'), ('list', 'defines_list', 'NamedList')):
+            attrs = {}
+            want = set()
+            for f in fields:
+                nm = f'{f.name}_name'
+                leaf = Stub(Q[ncls], name=nm, exp=Stub(Q['Token'], token='t'))
+                if 'Option' in f.annotation:
+                    attrs[f.name] = [Stub(Q['Option'], exp=leaf)]
+                elif f.annotation.replace(' ', '').startswith(('list[', 'tuple[', 'Sequence[')):
+                    attrs[f.name] = [leaf]
+                else:
+                    attrs[f.name] = leaf
+                want.add(nm)
+            extra = {}
+            if 'tatsu.peg.base.NamedBox' in a.ct.mro(c) or short in ('Named', 'NamedList', 'Override', 'OverrideList'):
+                extra['name'] = 'own'
+            node = Stub(c, **extra, **attrs)
+            it = ModelInterp(a)
+            try:
+                got = set(it.get_attr(node, prop))
+            except Unsupported as e:
+                raise AnalysisError(f'C01.R6: cannot interpret {short}.{prop}: {e}') from e
+            derived = _derived_operands(a, c)
+            missing = sorted(n for n in want - got if n[:-5] not in derived)
+            rep.add({'class': short, 'keys': prop, 'operands': sorted(attrs), 'declared': sorted(got), 'missing': missing,
+                     'derived_operands_not_required': sorted(derived)})
+            impl = a.ct.lookup(c, prop)
+            for n in missing:
+                rep.fail(c, f'defines:{kind}:{n[:-5]}', f'{short}.{prop} (implemented by {impl.qualname if impl else "?"}) does not contain the '
+                         f'names bound in the operand `{n[:-5]}`: such a name is missing from the AST, instead of being '
+                         f'{"None" if kind == "single" else "[]"}, whenever that operand did not match', a.p.classes[c].loc)
+    return rep
+
+
+def _derived_operands(a, c) -> set[str]:
+    """operand fields that __post_init__ builds from other operand fields of self (their names are the other operands' names)."""
+    out = set()
+    for q in a.ct.mro(c):
+        k = a.p.classes.get(q)
+        pi = k.methods.get('__post_init__') if k else None
+        if pi is None:
+            continue
+        for n in walk_no_defs(pi.node):
+            if isinstance(n, ast.Assign):
+                for t in n.targets:
+                    if isinstance(t, ast.Attribute) and norm(t.value) == 'self' and any(
+                            isinstance(x, ast.Attribute) and norm(x.value) == 'self' and x.attr == 'exp' for x in ast.walk(n.value)):
+                        if t.attr != 'exp':
+                            out.add(t.attr)
+    return out
+
+
+RULES = [r_chain, r1_frames, r1b_semantic_failures, r1c_control_containment, r2_cst, r3_ordered_choice, r4_progress, r5_state_stack,
+         r6_defines_cover_operands]
